@@ -1566,14 +1566,14 @@ func (ex *Exec) verifyFunc(fi *FuncInfo) {
 	if len(trustedLayer) > 0 {
 		var keep []*Obligation
 		for _, o := range ex.obls {
-			drop := len(o.Props) > 0
+			drop := len(o.Props) > 0 && strings.HasPrefix(o.Kind, "pre@")
 			for _, p := range o.Props {
 				if !trustedLayer[p] {
 					drop = false
 				}
 			}
 			if drop && !o.Vacuity {
-				ex.w.assumed["body of "+fi.FullName()+" not verified for layer "+strings.Join(o.Props, ",")+" (its postcondition for that layer is trusted)"] = true
+				ex.w.assumed["preconditions of layer "+strings.Join(o.Props, ",")+" at the calls inside "+fi.FullName()+" are not checked (its own postcondition for that layer is trusted)"] = true
 				continue
 			}
 			keep = append(keep, o)
